@@ -39,3 +39,10 @@ Theorem b32_decode_custom_foreign : forall s c ch, In ch s -> ~ In ch c -> ch <>
 Proof.
   unfold b32_decode. rewrite b32_alphabet_rfc, b32_pad_char_rfc. exact Lemmas.Base32.decode_custom_foreign.
 Qed.
+
+Theorem b32_decode_err : forall s custom e, b32_decode s custom = Err e -> e = ValueError.
+Proof. unfold b32_decode. rewrite b32_alphabet_rfc, b32_pad_char_rfc. exact Lemmas.Base32.decode_err. Qed.
+
+Theorem b32_canonical_refuted :
+  b32_decode [65; 66] None = Ok [0] /\ b32_encode_no_padding [0] None = Ok [65; 65].
+Proof. split; vm_compute; reflexivity. Qed.
